@@ -468,6 +468,32 @@ def run_job(ctx, job):
                 ctx.case(("unbound", name, k), k > 0, ["unbound-whole"])
                 for d in discs:
                     ctx.violation(d, "decode1", {"t": t, "buf": buf})
+        # element types whose wire size is not a plain fixed-width number: fixed-capacity strings (LEN + data area),
+        # DATE_AND_TIME (6 bytes), addresses, revisions; every count of whole elements from 0 to 90
+        others = [(T("DATE_AND_TIME"), lambda i: [(i * 0x01010101 + 5) & 0xFFFFFFFF, (i * 257 + 3) & 0xFFFF]),
+                  (T("ip"), lambda i: "10.%d.%d.7" % (i & 255, (3 * i) & 255)),
+                  (T("revision"), lambda i: {"major": i & 255, "minor": (7 * i) & 255})]
+        for size, cap in ((1, None), (2, None), (3, None), (8, None), (20, None), (82, None), (84, 82), (8, 5)):
+            others.append((T("fixedstr", size=size, **({"cap": cap} if cap else {})), lambda i, n=(cap or size): ("abcdefghij" * 9)[: (i * 5) % (n + 1)]))
+        for el, val in others:
+            t = T("array", len=None, el=el, via="factory")
+            one = len(R.enc(el, val(0)))
+            for k in range(0, 91):
+                vals = [val(i) for i in range(k)]
+                buf = b"".join(R.enc(el, v) for v in vals)
+                discs = check_decode_any(t, buf)
+                want = [tuple(v) if el["k"] == "DATE_AND_TIME" else v for v in vals]
+                try:
+                    got = C.lib_decode(t, buf)
+                    if len(got) != k:
+                        discs.append(Disc("unbound.count", f"{kind_sig(el)}[None] over {k} whole elements ({one} bytes each) decoded {len(got)}"))
+                    elif [tuple(g) if isinstance(g, (list, tuple)) else g for g in got] != want:
+                        discs.append(Disc("unbound.value", f"{kind_sig(el)}[None] over {k} whole elements decoded {got!r}"[:400]))
+                except Exception as e:
+                    discs.append(Disc("unbound.raises", f"{kind_sig(el)}[None] over {k} whole elements ({one} bytes each) raised {e!r}"))
+                ctx.case(("unbound", kind_sig(el), el.get("size"), k), k > 0, ["unbound-whole"])
+                for d in discs:
+                    ctx.violation(d, "decode1", {"t": t, "buf": buf})
     else:
         _atheris_part(ctx, job)
 
